@@ -182,6 +182,87 @@ impl Stage for ContainerRows {
     }
 }
 
+/// A relation that is bulk-loaded, mostly deleted again (so the table compacts before any index on it exists), then
+/// joined with a second relation; the join output and the tables are printed. Which index-construction path the
+/// engine takes may depend on state left behind by earlier e-graphs on the thread (pools, capacities), and that must
+/// not show: the in-process runs see recycled state, the child processes start clean.
+pub struct ChurnJoin;
+
+impl Stage for ChurnJoin {
+    type Input = Prog;
+    fn name(&self) -> &'static str {
+        "churn-join"
+    }
+    fn decode(&self, src: &mut Src) -> Prog {
+        use crate::prog::*;
+        let mut sig = Sig::default();
+        sig.sorts.push("S".into());
+        let rel = |name: &str, n: usize| FuncDecl { name: name.into(), kind: FKind::Rel, args: vec![Ty::I64; n], out: Ty::I64 };
+        sig.funcs.push(rel("R", 2)); // 0
+        sig.funcs.push(rel("Q", 2)); // 1
+        sig.funcs.push(rel("T", 2)); // 2
+        sig.funcs.push(FuncDecl { name: "Mk".into(), kind: FKind::Ctor { cost: None, unextractable: false }, args: vec![Ty::I64, Ty::I64], out: Ty::Eq(0) }); // 3
+        let n = 12 + src.below(70) as i64;
+        let m = 3 + src.below(9) as i64;
+        let step = 1 + src.below(7) as i64;
+        let row = |f: usize, a: i64, b: i64| Cmd::Act(Action::Expr(Term::App(f, vec![Term::I(a), Term::I(b)])));
+        let mut cmds = vec![];
+        // R: n rows, second column scattered
+        let rows: Vec<(i64, i64)> = (0..n).map(|i| (i, (i * step + 1) % (m * 3))).collect();
+        let rev = src.bool();
+        for k in 0..rows.len() {
+            let (a, b) = rows[if rev { rows.len() - 1 - k } else { k }];
+            cmds.push(row(0, a, b));
+        }
+        // delete more than half (sometimes fewer: no compaction) before R is ever queried
+        let del = if src.chance(4, 5) { n / 2 + 1 + src.below((n / 3) as usize) as i64 } else { src.below((n / 2) as usize) as i64 };
+        let from_front = src.bool();
+        for k in 0..del.min(n - 1) {
+            let (a, b) = rows[if from_front { k as usize } else { (n - 1 - k) as usize }];
+            cmds.push(Cmd::Act(Action::Delete(0, vec![Term::I(a), Term::I(b)])));
+        }
+        // Q: the other side of the join, usually larger than what is left of R
+        let nq = 4 + src.below(120) as i64;
+        for j in 0..nq {
+            cmds.push(row(1, j % (m * 3), 100 + (j * 7) % 13));
+        }
+        if src.bool() {
+            // some late inserts into R
+            for k in 0..1 + src.below(5) as i64 {
+                cmds.push(row(0, 500 + k, (k * 5) % (m * 3)));
+            }
+        }
+        let (x, y, z) = (Term::Var("x".into()), Term::Var("y".into()), Term::Var("z".into()));
+        let head = if src.bool() {
+            vec![Action::Expr(Term::App(2, vec![x.clone(), z.clone()]))]
+        } else {
+            // fresh e-class ids are handed out in match order; extraction / print of Mk shows them
+            vec![Action::Expr(Term::App(3, vec![x.clone(), z.clone()])), Action::Expr(Term::App(2, vec![x.clone(), z.clone()]))]
+        };
+        let body = match src.below(3) {
+            0 => vec![Fact::T(Term::App(0, vec![x.clone(), y.clone()])), Fact::T(Term::App(1, vec![y.clone(), z.clone()]))],
+            1 => vec![Fact::T(Term::App(1, vec![y.clone(), z.clone()])), Fact::T(Term::App(0, vec![x.clone(), y.clone()]))],
+            _ => vec![Fact::T(Term::App(0, vec![x.clone(), y.clone()])), Fact::T(Term::App(0, vec![y.clone(), z.clone()]))],
+        };
+        cmds.push(Cmd::Rule { body, head, opts: RuleOpts::default() });
+        cmds.push(Cmd::RunN { rs: None, n: 1 + src.below(2), until: vec![] });
+        cmds.push(Cmd::PrintFunction(2, 1000));
+        cmds.push(Cmd::PrintFunction(3, 1000));
+        cmds.push(Cmd::PrintFunction(0, 1000));
+        cmds.push(Cmd::PrintSize(None));
+        Prog { sig, cmds }
+    }
+    fn render(&self, inp: &Prog) -> serde_json::Value {
+        serde_json::json!(inp.text().lines().collect::<Vec<_>>())
+    }
+    fn simplify(&self, inp: &Prog) -> Vec<Prog> {
+        simplify_prog(inp)
+    }
+    fn check(&self, prog: &Prog) -> Outcome {
+        C20.check(prog)
+    }
+}
+
 pub fn corpus_stage() -> CorpusDiff {
     CorpusDiff {
         a: run_cfg(),
@@ -201,6 +282,7 @@ pub fn replay(rep: &Report, stage: &str, j: &serde_json::Value) -> i32 {
     match stage {
         "corpus" => crate::registry::replay_stage(rep, &corpus_stage(), j),
         "container-rows" => crate::registry::replay_stage(rep, &ContainerRows, j),
+        "churn-join" => crate::registry::replay_stage(rep, &ChurnJoin, j),
         _ => crate::registry::replay_stage(rep, &C20, j),
     }
 }
@@ -213,8 +295,10 @@ pub fn run(rep: &Report) {
     );
     rep.assume("timings (Durations) and print-stats text are excluded, as the property states");
     rep.run_regressions(&C20);
-    rep.explore(&C20, rep.tier.pick(700, 12_000), 700);
+    rep.explore(&C20, rep.tier.pick(700, 8_000), 700);
     rep.run_regressions(&ContainerRows);
-    rep.explore(&ContainerRows, rep.tier.pick(120, 3000), 200);
+    rep.explore(&ContainerRows, rep.tier.pick(120, 2000), 200);
+    rep.run_regressions(&ChurnJoin);
+    rep.explore(&ChurnJoin, rep.tier.pick(160, 2500), 200);
     run_corpus(rep, &corpus_stage());
 }
